@@ -22,6 +22,19 @@ PLANS = {
              quick=[dict(mode="pbt", cases=5000, shards=4)],
              thorough=[dict(mode="pbt", cases=125000, shards=16)],
              assumptions=ASSUME),
+    "C06": P("c06_rotations.cpp",
+             quick=[dict(mode="enum"), dict(mode="pbt", cases=4000, shards=4)],
+             thorough=[dict(mode="enum"), dict(mode="pbt", cases=100000, shards=16)],
+             exhaustive_axes="all 35 plane-rotation kernels (d,i<j) x 7 angle classes x 7 phase classes",
+             assumptions=ASSUME),
+    "C07": P("c07_expm.cpp",
+             quick=[dict(mode="pbt", cases=1200, shards=8)],
+             thorough=[dict(mode="pbt", cases=25000, shards=16)],
+             assumptions=ASSUME + ["the norm estimator inside the library draws from a thread-local GSL RNG, so band selection near a threshold depends on process history; accuracy must hold for whichever band is chosen"]),
+    "C12": P("c12_eigen.cpp",
+             quick=[dict(mode="pbt", cases=5000, shards=4)],
+             thorough=[dict(mode="pbt", cases=125000, shards=16)],
+             assumptions=ASSUME),
     "C13": P("c13_factories.cpp",
              quick=[dict(mode="enum"), dict(mode="pbt", cases=3000, shards=1)],
              thorough=[dict(mode="enum"), dict(mode="pbt", cases=40000, shards=16)],
